@@ -267,6 +267,9 @@ func hashI32(l []int32) uint64 {
 func c12RoundTrip(w *mon.W, idx int) {
 	r := w.Rng
 	bm := gen.ZooBitmap(r, r.Intn(12))
+	if len(bm) == 0 && r.Bool() {
+		bm = nil
+	}
 	if r.Bool() {
 		bm = append(bm, 0, 0) // trailing zero words
 		w.Bucket("roundtrip/trailing-zero-words")
